@@ -90,6 +90,14 @@ def run_perf(c, o):
               empty_cg=rng.uniform(-2, 2, 3), cg=rng.uniform(-2, 2, 3), S_ref_total=10 ** rng.uniform(0.5, 2.7))
     q = 0.5 * fl["rho"] * fl["v"] ** 2
     Stot = fl["S_ref_total"] if c["user_sref"] else sum(d["S_ref"] for d in data)
+    if not c["aero_only"]:
+        # keep the Breguet exponent R CT CD / (a M CL) inside the domain of the performance model (<= 5: fuel burn up to ~150 x the
+        # aircraft's mass); beyond it the cg = .../(W/g - fuelburn) of the repository cancels catastrophically (see zoo.run)
+        CLt_ = sum(d["CL"] * d["S_ref"] for d in data) / Stot
+        CDt_ = sum(d["CD"] * d["S_ref"] for d in data) / Stot
+        ex_ = fl["R"] * fl["CT"] / fl["speed_of_sound"] / fl["Mach_number"] * CDt_ / CLt_
+        if ex_ > 5.0:
+            fl["R"] = fl["R"] * 5.0 / ex_
     if c["lw"] and not c["aero_only"]:
         # choose W0 such that lift equals weight exactly (positive total lift needed)
         L = q * sum(d["CL"] * d["S_ref"] for d in data)
@@ -172,7 +180,8 @@ def run_perf(c, o):
             o.close("perf/L_equals_W_zero_iff_L_eq_W", g("L_equals_W"), 0.0, rtol=0, atol=max(1e-10, U), what="lift equals weight by construction")
             o.close("perf/L_equals_W_zero_iff_L_eq_W", g("L"), g("total_weight"), rtol=max(1e-10, U))
         cgm = (fl["W0"] * fl["empty_cg"] + sum(d["structural_mass"] * d["cg_location"] for d in data)) / (fl["W0"] + ms)
-        o.close("perf/cg", g("cg"), cgm, rtol=max(1e-11, U), scale=3.0)
+        # (W/g - fuelburn) loses fb/(W0+ms) digits
+        o.close("perf/cg", g("cg"), cgm, rtol=max(1e-11, U), scale=3.0 * (1.0 + fb / (fl["W0"] + ms)))
     o.nontrivial = True
 
 
